@@ -93,7 +93,15 @@ func (a *Arg) Resolve(field *Field, args map[string]interface{}) (result interfa
 	case typeStr:
 		result = a.Type
 	case defaultValueStr:
-		result = a.Default
+		switch d := a.Default.(type) {
+		case nil:
+		case string:
+			result = d
+		default:
+			// The default as GraphQL text. Lists, objects and enum values
+			// can not be coerced to a String as they are.
+			result = valueString(d)
+		}
 	}
 	return
 }
